@@ -142,13 +142,13 @@ type replayOutcome struct {
 	CallerBal string   `json:"caller_balance_after"`
 	Fired     []string `json:"join_points_fired"`
 	Slot0     string   `json:"callee_slot0_after"`
-	Panicked bool     `json:"panicked"`
-	Panic    string   `json:"panic"`
-	Err      string   `json:"err"`
-	Out      string   `json:"out"`
-	OutLen   int      `json:"out_len"`
-	StackLen int      `json:"stack_len"`
-	Notes    []string `json:"notes"`
+	Panicked  bool     `json:"panicked"`
+	Panic     string   `json:"panic"`
+	Err       string   `json:"err"`
+	Out       string   `json:"out"`
+	OutLen    int      `json:"out_len"`
+	StackLen  int      `json:"stack_len"`
+	Notes     []string `json:"notes"`
 }
 
 func (c *Ctx) runScenario(driverName string, scenario map[string]any, confirm func(*replayOutcome) (bool, string)) *ReplayRun {
